@@ -428,3 +428,133 @@ def random_script(rng: random.Random) -> dict:
                        [rng.choice(["Content-Length", "content-length", "CONTENT-LENGTH"]), str(sum(map(len, chunks)))])
     via = [rng.random() < 0.25 for _ in chunks]
     return {"code": code, "reason": reason, "headers": headers, "chunks": chunks, "via_write": via}
+
+
+# ---------------------------------------------------------------------------------- WSGI call protocol (Proto...)
+PROTO_STATUS = {"A": ("201 A", [("X-Id", "A"), ("Content-Type", "text/plain")]),
+                "B": ("404 B", [("X-Id", "B"), ("Content-Type", "text/plain")])}
+_LINT_PROTOCOL_MARKERS = ("before it started the response", "closed 'app_iter'", "Invalid number of arguments",
+                          "exc_info", "write()", "application iterator items")
+
+
+def _drive(raw: bytes, app, proto: int) -> tuple[bytes, str]:
+    """One connection on a socket pair: send `raw`, half-close, run the real handler, collect the reply."""
+    a, b = socket.socketpair()
+    a.settimeout(20)
+    b.settimeout(20)
+    out = []
+
+    def client():
+        try:
+            a.sendall(raw)
+            a.shutdown(socket.SHUT_WR)
+            while True:
+                d = a.recv(65536)
+                if not d:
+                    break
+                out.append(d)
+        except OSError:
+            out.append(b"<client-error>")
+
+    th = threading.Thread(target=client)
+    th.start()
+    crashed = ""
+    try:
+        _handler(proto)(b, ("127.0.0.1", 40000), _StubServer(app))
+    except BaseException as e:
+        crashed = type(e).__name__
+    finally:
+        try:
+            b.shutdown(socket.SHUT_WR)
+        except OSError:
+            pass
+        b.close()
+    th.join(25)
+    a.close()
+    return b"".join(out), crashed
+
+
+def scripted_protocol_app(script: list[dict], cut: int, counter: dict):
+    """A WSGI application that performs exactly the protocol actions of `script` (WsgiContract.tla)."""
+    import sys
+
+    def app(environ, start_response):
+        state = {"write": None}
+
+        def perform(a):
+            k = a["k"]
+            if k == "SR":
+                st, hs = PROTO_STATUS[a["id"]]
+                state["write"] = start_response(st, list(hs))
+            elif k == "SRX":
+                st, hs = PROTO_STATUS[a["id"]]
+                try:
+                    raise ValueError("application error handed to start_response")
+                except ValueError:
+                    state["write"] = start_response(st, list(hs), sys.exc_info())
+            elif k == "W":
+                state["write"](bytes(a["d"]))
+            elif k == "RAISE":
+                raise RuntimeError("scripted application failure")
+
+        for a in script[:cut]:
+            perform(a)
+
+        class It:
+            def __init__(self):
+                self.i = cut
+
+            def __iter__(self):
+                return self
+
+            def __next__(self):
+                while self.i < len(script):
+                    a = script[self.i]
+                    self.i += 1
+                    if a["k"] == "Y":
+                        return bytes(a["d"])
+                    perform(a)
+                raise StopIteration
+
+            def close(self):
+                counter["closes"] += 1
+
+        return It()
+
+    return app
+
+
+def run_wsgi_script(script: list[dict], cut: int, proto: int = 11, with_lint: bool = True) -> dict:
+    import warnings
+
+    raw = build_request("GET", "/p", "HTTP/1.1", [("Host", "localhost", ": ")], [], b"")
+    counter = {"closes": 0}
+    got, crashed = _drive(raw, scripted_protocol_app(script, cut, counter), proto)
+    lint = False
+    if with_lint:
+        from werkzeug.middleware.lint import LintMiddleware, WSGIWarning
+
+        c2 = {"closes": 0}
+        with warnings.catch_warnings(record=True) as rec:
+            warnings.simplefilter("always")
+            _drive(raw, LintMiddleware(scripted_protocol_app(script, cut, c2)), proto)
+        lint = any(issubclass(w.category, WSGIWarning) and any(m in str(w.message) for m in _LINT_PROTOCOL_MARKERS)
+                   for w in rec)
+    return {"op": "wsgi", "proto": proto, "script": script, "cut": cut, "got": list(got), "closes": counter["closes"],
+            "lint": bool(lint), "lintrun": bool(with_lint), "crashed": crashed}
+
+
+def run_pipelined(n: int = 2, proto: int = 11) -> dict:
+    """n requests written back to back on one connection (the first with an unread body)."""
+    seen = []
+
+    def app(environ, start_response):
+        seen.append(environ["PATH_INFO"])
+        start_response("200 OK", [("Content-Length", "2")])
+        return [b"ok"]
+
+    reqs = [build_request("POST", f"/r{i}", "HTTP/1.1", [("Host", "localhost", ": ")], [("Content-Length", "5", ": ")], b"hello")
+            for i in range(n)]
+    got, crashed = _drive(b"".join(reqs), app, proto)
+    return {"op": "pipe", "n": n, "proto": proto, "got": list(got), "responses": got.count(b"HTTP/1."), "calls": len(seen),
+            "crashed": crashed}
